@@ -239,6 +239,9 @@ Definition round_to_mult (m P p : Z) : Z :=
   if 2 * r <? P then q * p else if P <? 2 * r then (q + 1) * p
   else if Z.even q then q * p else (q + 1) * p.
 
+(** [int.bit_length()] *)
+Definition bit_length (z : Z) : Z := if z =? 0 then 0 else Z.log2 (Z.abs z) + 1.
+
 (** math.py:81 [round_]; [digits = None] stands for a missing / nil argument. *)
 Definition round_f (left : fval) (digits : option fval) : res fval :=
   do l <- math_left left;;
@@ -253,11 +256,17 @@ Definition round_f (left : fval) (digits : option fval) : res fval :=
           else if n <? 0 then
             (* after the fix: int(round(left, n)), half-even to a multiple of 10^-n *)
             match l with
-            | NInt z => Ok (FInt (round_to_mult z (10 ^ (- n)) (10 ^ (- n))))
+            | NInt z =>
+                (* math.py (fix "round with a huge negative digit count did not return"):
+                   more digits than bits -> 10^-n is more than twice |z| -> 0, without the power *)
+                if bit_length z <? - n then Ok (FInt 0)
+                else Ok (FInt (round_to_mult z (10 ^ (- n)) (10 ^ (- n))))
             | NDec m e =>
                 if dec_small m e then
-                  Ok (FInt (if 0 <=? e then round_to_mult (m * 10 ^ e) (10 ^ (- n)) (10 ^ (- n))
-                            else round_to_mult m (10 ^ (- e - n)) (10 ^ (- n))))
+                  (* |x| < 2^53 < 10^17 / 2: CPython's float round gives 0 without the power *)
+                  if 17 <? - n then Ok (FInt 0)
+                  else Ok (FInt (if 0 <=? e then round_to_mult (m * 10 ^ e) (10 ^ (- n)) (10 ^ (- n))
+                                 else round_to_mult m (10 ^ (- e - n)) (10 ^ (- n))))
                 else unmodelled
             end
           else if n =? 0 then round0 l
